@@ -235,6 +235,35 @@ func RunExportImport(c *core.Ctx) {
 		s.ListCollections()
 		c.Cell("import-failure|%s|%s", f.kind, backendClass(backend))
 	}
+	// a large file whose LAST documents are bad: nothing of it may stay (an import that commits in batches would leave the first ones)
+	if c.Case%5 == 0 && !s.failed {
+		var b []byte
+		b = append(b, '[')
+		nbig := 1500 + r.Intn(1200)
+		for i := 0; i < nbig; i++ {
+			b = append(b, fmt.Sprintf(`{"_id":"%s","a":%d},`, r.UUID(), i)...)
+		}
+		kind := "late-malformed-id"
+		switch r.Intn(3) {
+		case 0:
+			b = append(b, `{"_id":"zz","a":1}]`...)
+		case 1:
+			b = append(b, fmt.Sprintf(`{"_id":"%s","a":1},{"_id":"%s","a":2}]`, id1, id1)...)
+			kind = "late-duplicate-id"
+		default:
+			b = append(b, fmt.Sprintf(`{"_id":"%s","_expiresAt":"x"}]`, id1)...)
+			kind = "late-bad-expires"
+		}
+		p := write("big.json", string(b))
+		before := s.rawSnapshot()
+		n := fmt.Sprintf("ImportCollection(\"big\", <%d documents, %s>)", nbig, kind)
+		got, e := s.run(n, false, func() error { return s.h.DB.ImportCollection("big", p) })
+		if s.expect(n, []string{EAny, EDup}, got, e) && s.sameSnapshot(before, n) {
+			s.ListCollections()
+			s.Count(&model.Query{Coll: "big"})
+			c.Cell("import-failure|%s|%s", kind, backendClass(backend))
+		}
+	}
 	// export failure paths
 	if !s.failed {
 		before := s.rawSnapshot()
